@@ -86,8 +86,17 @@ let method_of (bs : n list) : string option =
        | _ -> None)
   | _ -> None
 
-let abstract_with (known : string list option) (max : Model.z) (evs : string list) : aev list =
+let abstract_with (known0 : string list option) (max : Model.z) (evs : string list) : aev list =
   let infl = C02.inflated_of evs in
+  (* the registered methods grow when a protocol is registered on the running transport ("registered/<name hex>:<methods>") *)
+  let known_now : string list option ref = ref known0 in
+  let late_methods (spec : string) : string list =
+    match String.index_opt spec ':' with
+    | Some i ->
+        let p = string_of_hex (String.sub spec 0 i) in
+        List.map (fun m -> let mn = string_of_hex m in if p = "" then mn else p ^ "." ^ mn)
+          (split_on '+' (String.sub spec (i + 1) (String.length spec - i - 1)))
+    | None -> [] in
   let fed : (string * frame_info) list ref = ref [] in     (* nonce (decimal) -> request frame *)
   List.concat_map (fun e ->
     match String.split_on_char '/' e with
@@ -108,7 +117,7 @@ let abstract_with (known : string list option) (max : Model.z) (evs : string lis
               let fb = take (plen + li) bs in
               let fi = frame_info_of max infl fb in
               fed := (ZZ.to_string (z_of_coq fi.fi_nonce), fi) :: !fed;
-              let kn = (match known, method_of fb with
+              let kn = (match !known_now, method_of fb with
                         | Some l, Some m -> List.mem m l
                         | _, _ -> true) in
               split (drop li rest) (AFeed (fi, kn) :: acc)
@@ -116,6 +125,9 @@ let abstract_with (known : string list option) (max : Model.z) (evs : string lis
               let fi = frame_info_of max infl bs in
               List.rev (AFeed (fi, true) :: acc) in
         split (bytes_of_hex (if h = "-" then "" else h)) []
+    | [ "registered"; spec ] ->
+        (match !known_now with Some l -> known_now := Some (late_methods spec @ l) | None -> ());
+        []
     | [ "bufs"; body ] ->
         List.filter_map (fun kvs -> match String.split_on_char '=' kvs with
           | [ c; v ] -> Some (ABuf (id_num c, v = "1")) | _ -> None) (String.split_on_char ',' body)
